@@ -151,9 +151,101 @@ func c19SweepCases() []c19Case {
 	return out
 }
 
+
+// ---------------------------------------------------------------------------
+// (3) query-string sweep. The GET routes take their parameters from the query
+// string, which the body sweeps above never touch. c19QueryOwn lists the
+// parameters the router's handlers actually read (enumerated from
+// r.URL.Query() in internal/server/http_handlers.go); c19QueryStray is a set of
+// parameter names a paging / search / time-travel read route would plausibly
+// read: they go to EVERY GET route of the table, so that a handler that starts
+// reading one of them is covered without touching this file. Each parameter
+// meets each extreme value on a populated index (fx), an empty one (fe) and an
+// unknown one (nope).
+// ---------------------------------------------------------------------------
+
+var c19QueryOwn = map[string][]string{
+	"/vector/indexes/{name}/export":      {"limit", "offset"},
+	"/vector/indexes/{name}/reflections": {"status"},
+}
+
+var c19QueryStray = []string{"limit", "offset", "cursor", "k", "depth", "at_time", "page_size", "index_name"}
+
+// huge, negative, zero, non-numeric, overflowing int64, int32 boundaries, float / hex / signed spellings, empty, encoded junk
+var c19QueryValues = []string{
+	"9223372036854775807", "4611686018427387904", "-1", "0", "abc", "9223372036854775808", "99999999999999999999",
+	"-9223372036854775808", "2147483648", "1000000", "1", "", "1e18", "0x7fffffffffffffff", "+5", "%00", "%27%20OR%201=1", "NaN",
+}
+
+func c19QueryAlways(v string) bool {
+	return v == "9223372036854775807" || v == "4611686018427387904" || v == "-1" || v == "abc" || v == "9223372036854775808"
+}
+
+type c19QCase struct {
+	c     c19Case
+	label string // query:<route> <param>
+	own   bool   // the route's handler reads the parameter
+}
+
+// c19QueryCases: one case per (route, parameter, value): the same query on the
+// populated, the empty and the unknown index (routes without {name}: once),
+// plus, for routes that read two parameters, the value in both at once.
+func c19QueryCases() []c19QCase {
+	var out []c19QCase
+	for _, r := range c19Routes {
+		if r.Method != "GET" {
+			continue
+		}
+		names := []string{"fx"}
+		if strings.Contains(r.Path, "{name}") {
+			names = []string{"fx", "fe", "nope"}
+		}
+		build := func(param, query string, own bool, mut string) {
+			qc := c19QCase{label: "query:" + r.Path + " " + param, own: own}
+			for _, n := range names {
+				target := strings.NewReplacer("{name}", n, "{id}", "v0", "{key}", "k0", "{task}", "nope-task").Replace(r.Path) + "?" + query
+				qc.c.Reqs = append(qc.c.Reqs, c19Req{Method: "GET", Target: target, Route: "GET " + r.Path, Mut: []string{mut}})
+			}
+			out = append(out, qc)
+		}
+		own := c19QueryOwn[r.Path]
+		for _, p := range own {
+			for _, v := range c19QueryValues {
+				build(p, p+"="+v, true, "query-own:"+p)
+			}
+		}
+		if len(own) > 1 {
+			for _, v := range c19QueryValues {
+				var parts []string
+				for _, p := range own {
+					parts = append(parts, p+"="+v)
+				}
+				build(strings.Join(own, "+"), strings.Join(parts, "&"), true, "query-own:"+strings.Join(own, "+"))
+			}
+		}
+		for _, p := range c19QueryStray {
+			isOwn := false
+			for _, o := range own {
+				isOwn = isOwn || o == p
+			}
+			if isOwn {
+				continue
+			}
+			// a parameter the handler does not read today: all values in one case would hide which one
+			// matters, but the cost of 18 cases per (route, name) is not justified: always-values only
+			for _, v := range c19QueryValues {
+				if c19QueryAlways(v) {
+					build(p, p+"="+v, false, "query-stray:"+p)
+				}
+			}
+		}
+	}
+	return out
+}
+
 func TestVerif_C19_extremes(t *testing.T) {
 	c19ProcessInit()
-	col := verifkit.New("C19", "extremes", "deterministic sweeps. (1) each numeric / duration field of the data-plane request bodies (table c19ExtTable) x each extreme value (negative, zero, one, 1e6, 2^62, int64 limits, +-1e308, denormal, negative / zero / huge durations), one case per pair, followed by the requests that make a stored value take effect (add + search + refine + drop for a create; refine + vacuum + search for a config). Every such case is NON-TRIVIAL (the mutated body still decodes). (2) every body-reading route x every non-JSON / top-level-alien body, and every field of every route x every alien value (type confusion), 6 requests per case; non-trivial when the altered body still decodes. Quick tier: for (1) the values -1, 2^62, \"-1s\" and [1,2] for every field plus a seed-selected quarter of the rest, for (2) a seed-selected tenth; thorough: all")
+	col := verifkit.New("C19", "extremes", "deterministic sweeps. (1) each numeric / duration field of the data-plane request bodies (table c19ExtTable) x each extreme value (negative, zero, one, 1e6, 2^62, int64 limits, +-1e308, denormal, negative / zero / huge durations), one case per pair, followed by the requests that make a stored value take effect (add + search + refine + drop for a create; refine + vacuum + search for a config). Every such case is NON-TRIVIAL (the mutated body still decodes). (2) every body-reading route x every non-JSON / top-level-alien body, and every field of every route x every alien value (type confusion), 6 requests per case; non-trivial when the altered body still decodes. Quick tier: for (1) the values -1, 2^62, \"-1s\" and [1,2] for every field plus a seed-selected quarter of the rest, for (2) a seed-selected tenth; thorough: all. (3) query strings of the GET routes: every parameter a handler reads (export limit / offset, reflections status) x every extreme spelling (int64 limits and beyond, 2^62, 2^31, negative, zero, non-numeric, float / hex / signed spellings, empty, encoded junk), alone and together, on the populated, the empty and an unknown index; plus paging / search / time-travel parameter names no handler reads today (limit offset cursor k depth at_time page_size index_name) on every GET route (quick: a seed-selected eighth of those). Non-trivial when the handler reads the parameter and a handler answered")
 	defer col.Finish()
 	if p := verifkit.ReplayPath(); p != "" {
 		if verifkit.ReplayPart(p) != "extremes" {
@@ -247,9 +339,50 @@ func TestVerif_C19_extremes(t *testing.T) {
 			t.Errorf("%s", msg)
 		}
 	}
+	// third part: query-string parameters of the GET routes
+	qcases := c19QueryCases()
+	nq := 0
+	for i, qc := range qcases {
+		if !verifkit.Thorough() && !qc.own && (int64(i)+verifkit.Seed())%8 != 0 {
+			continue // quick tier: every (parameter, value) a handler reads, a seed-selected eighth of the stray ones
+		}
+		if verifkit.Shards() > 1 && i%verifkit.Shards() != verifkit.Shard() {
+			continue
+		}
+		c := qc.c
+		st := &c19Stats{}
+		col.InFlight(c)
+		msg, herr := c19Run(c, st)
+		col.Landed()
+		nq++
+		kind := "query-string:stray-parameter"
+		if qc.own {
+			kind = "query-string:parameter-read-by-handler"
+		}
+		// non-trivial: the parameter is one the handler reads and a handler answered (not the mux)
+		reached := false
+		for _, l := range st.labels {
+			reached = reached || (strings.HasPrefix(l, "route:") && !strings.HasPrefix(l, "route:(no handler"))
+		}
+		col.Case(c, qc.own && reached, append(st.labels, kind, qc.label)...)
+		col.Label("requests-served", st.requests)
+		if herr != nil {
+			t.Fatalf("harness error: %v", herr)
+		}
+		if strings.HasPrefix(msg, c19HungPrefix) {
+			c19AfterHang(col, c, msg)
+		}
+		if msg != "" {
+			failed = true
+			col.FailDistinct(c, "%s", fmt.Sprintf("[%s] %s", qc.label, msg))
+			t.Errorf("[%s] %s", qc.label, msg)
+		}
+	}
 	col.SetExhaustive(verifkit.Thorough() && !failed)
 	col.Extra("pairs_total", total)
 	col.Extra("pairs_run", n)
 	col.Extra("sweep_cases_total", len(sweep))
 	col.Extra("sweep_cases_run", ns)
+	col.Extra("query_cases_total", len(qcases))
+	col.Extra("query_cases_run", nq)
 }
